@@ -231,6 +231,48 @@ def part_decorators(payload):
     dims = {n: v for n, v in vars(D).items() if isinstance(v, sympy.Basic) and not n.startswith("_") and n not in ("dimensionless",)}
     names = sorted(dims)[payload["lo"]::payload["step"]]
     allnames = sorted(dims)
+    if payload["lo"] == 0:
+        # the dimensionless dimension: pure numbers pass whether or not they are wrapped (bare float / int / NumPy scalar / ndarray,
+        # quantities in dimensionless, percent, km/m), anything dimensional is refused -- for accepts and for every slot of returns
+        import numpy as _np
+
+        pure = [("bare float", 0.25), ("bare int", 3), ("np.float64", _np.float64(0.5)), ("np.int32", _np.int32(2)), ("bare ndarray", _np.array([0.5, 2.0])), ("0-d ndarray", _np.array(1.5)),
+                ("dimensionless quantity", unyt_quantity(0.25, "dimensionless")), ("percent", unyt_quantity(25.0, "percent")), ("km/m", unyt.unyt_array([1.0, 2.0], "km/m")),
+                ("rad/rad ratio", unyt_quantity(1.0, "m") / unyt_quantity(2.0, "cm"))]
+        dimensional = [("m", unyt_quantity(1.0, "m")), ("rad", unyt_quantity(1.0, "rad")), ("K", unyt.unyt_array([1.0], "K"))]
+        ncalls = {"n": 0}
+
+        @accepts(x=D.dimensionless)
+        def g_acc(x, y=None):
+            ncalls["n"] += 1
+            return "ran"
+
+        @accepts(y=D.dimensionless)
+        def g_kw(x, y=1.0):
+            ncalls["n"] += 1
+            return "ran"
+
+        for label, val in pure + dimensional:
+            should = (label, val) in pure
+            for un, call_ in (("accepts(dimensionless):positional", lambda: g_acc(val)), ("accepts(dimensionless):keyword", lambda: g_kw(0, y=val)),
+                              ("returns(dimensionless)", lambda: returns(D.dimensionless)(lambda: val)()), ("returns(length, dimensionless)", lambda: returns(D.length, D.dimensionless)(lambda: (unyt_quantity(1.0, "m"), val))()),
+                              ("returns(r_unit=dimensionless)", lambda: returns(r_unit=D.dimensionless)(lambda: val)())):
+                part.ev()
+                ncalls["n"] = 0
+                try:
+                    call_()
+                    passed = True
+                except TypeError:
+                    passed = False
+                except Exception as e:
+                    core.classify(known, part, f"C19:accepts:wrong-exception:{un}:{label}", {"error": f"{type(e).__name__}: {e}"[:160]})
+                    continue
+                if passed != should:
+                    core.classify(known, part, f"C19:{'accepts' if un.startswith('accepts') else 'returns'}:{'let-through' if passed else 'refused'}:dimensionless-spec:{un}", {"value": label})
+                elif un.startswith("accepts") and not passed and ncalls["n"]:
+                    core.classify(known, part, f"C19:accepts:function-called-before-refusal:dimensionless-spec:{un}", {"value": label})
+                else:
+                    part.nt(("dimensionless-spec", un, label, passed))
     for name in names:
         dim = dims[name]
         try:
